@@ -4,7 +4,7 @@
    irreflexive, and > <= >= are derived from < exactly as the property demands.
    REFUTED (known finding, see known_findings.txt): transitivity of the vector-level <. *)
 From Coq Require Import ZArith List Bool.
-From Cntgs Require Import Base Layout Mem Vector Proxy World Spec Rep CompareThm ElemThm CmpContent.
+From Cntgs Require Import Base Layout Mem Vector Proxy World Spec Rep CompareThm ElemThm CmpContent Rep FastEq FastLess.
 Import ListNotations.
 Local Open Scope Z_scope.
 
@@ -85,3 +85,22 @@ Proof.
   exists L16, (getv w16 0), (getv w16 1), (getv w16 2). vm_compute. repeat split.
 Qed.
 Print Assumptions C14_vector_less_transitive_refuted.
+
+(* vector <, whole-buffer fast path (all value types lexicographically memcmp-able, no
+   VaryingSize parameter, IS_PADDING_FREE, equal fixed sizes): in every pair of represented
+   states - any capacities, junk, histories - it is std::lexicographical_compare over the two
+   lists of tuples with the elements ordered by their bytes: a function of the logical content
+   only (tight packing makes the buffers the concatenation of the elements' bytes, all elements
+   have the same number of bytes) *)
+Theorem C14_vector_less_fast_path_is_lexicographic_on_content : forall L, wf_plist L = true ->
+  padfree L = true -> has_varying L = false ->
+  forall v1 l1 v2 l2, Rep L v1 l1 -> Rep L v2 l2 ->
+  (forallb lxm L && negb (has_varying L) && padfree L && list_eqb (v_fixed v1) (v_fixed v2)) = true ->
+  vec_less L v1 v2 = lexl lex_lt (map ebytes l1) (map ebytes l2).
+Proof. exact vec_less_content_fast. Qed.
+Print Assumptions C14_vector_less_fast_path_is_lexicographic_on_content.
+
+Example C14_fast_path_lists_exist :
+  let L := [ {| pk := Plain; psz := 1; pal := 1; pty := TU8 |}; {| pk := Fixed; psz := 1; pal := 1; pty := TByte |} ] in
+  wf_plist L = true /\ padfree L = true /\ has_varying L = false /\ forallb lxm L = true.
+Proof. vm_compute. repeat split; reflexivity. Qed.
